@@ -64,6 +64,7 @@ def parse_vs_reference(ctx, T, cfg, cls, data, *, label=""):
         lib = ("error", H.classify(e), None)
     ref = H.ref_parser(ctx, cfg)
     ref.partial_eof = False
+    ref.canonical_leb = False   # parse only: padded (non-minimal) LEB128 encodings are inputs too, a padded zero ends x[]
     try:
         rv, rpos = ref.parse(T, data, 0)
         r = ("value", rv, rpos)
@@ -130,11 +131,8 @@ def make_write(case):
         m = cnt + delta
         if m < 0:
             return
-        b = Builder(ctx, cs, cfg)
+        b = Builder(ctx, cs, cfg, in_range=True)
         elems = [b.build(ET, cls.__fields__[0].type.type)[0] for _ in range(m)]
-        for _, x, lo, hi in b.leaves:
-            if lo is not None:
-                ctx.constrain(R.And(x >= lo, x <= hi))
         if ET[0] == "char":
             val = b""
             for e in elems:
@@ -156,6 +154,39 @@ def make_write(case):
             ctx.check("array of the declared length is written", outcome == "dumped", outcome)
         else:
             ctx.check("array of a different length is refused with ArraySizeError", outcome == "ArraySizeError", outcome)
+    return run
+
+
+def make_write0(case):
+    """Dumping x[] writes every element handed in (zero-valued ones included) and then re-appends the zero element."""
+    ET, cfg = case["ET"], case["cfg"]
+    T = ["struct", "test", [["d", G.arr(ET, None), None], ["t", G.U8, None]], False]
+    cs, cls = H.load(T, cfg)
+    es = H.layout(cfg).size_align(ET)[0]
+    big = cfg["endian"] == ">"
+
+    def run(ctx):
+        from vf.harness.c01 import Builder
+        m = ctx.choose("m", 3)
+        b = Builder(ctx, cs, cfg, in_range=True)
+        built = [b.build(ET, cls.__fields__[0].type.type) for _ in range(m)]
+        v = cls(d=[x[0] for x in built], t=0x5A)
+        try:
+            o = v.dumps()
+        except Exception as e:  # noqa: BLE001
+            ctx.check("a list of in-range elements is written", False, H.classify(e))
+            return
+        ctx.observe("len", len(o))
+        ctx.check("dump = m elements + the zero element + the next member", len(o) == (m + 1) * es + 1, f"{len(o)} for m={m}")
+        if len(o) != (m + 1) * es + 1:
+            return
+        ctx.check("the re-appended terminator is a zero element", R.And(*[o[m * es + i] == 0 for i in range(es)]))
+        ctx.check("the next member follows the terminator", o[(m + 1) * es] == 0x5A)
+        if ET[0] in ("int", "enum"):
+            signed = ET[2] if ET[0] == "int" else ET[2][2]
+            for i, (_, ref) in enumerate(built):
+                exp = R.encode_int(ref, es, signed, big)
+                ctx.check(f"element {i} written in place", R.And(*[o[i * es + j] == exp[j] for j in range(es)]))
     return run
 
 
@@ -184,3 +215,7 @@ def cases(tier, seed):
             for cfg in families.PAIRWISE:
                 if not cfg["compiled"]:
                     yield {"label": f"write {ename}[{cnt}]", "ET": ET, "count": cnt, "cfg": cfg, "make": "make_write"}
+        if ET[0] in ("int", "enum", "struct"):
+            for e in "<>":
+                yield {"label": f"write {ename}[]", "ET": ET, "cfg": {"endian": e, "align": False, "compiled": False, "pointer": "uint64"},
+                       "make": "make_write0"}
